@@ -29,6 +29,7 @@ type c14Task struct {
 	Input       string     `json:"input"`
 	Eval        bool       `json:"eval,omitempty"`
 	Prefix      []string   `json:"prefix,omitempty"` // files added to the file set first
+	Huge        int        `json:"huge,omitempty"`   // length of a content-less file added first (large global positions)
 	StaticCheck bool       `json:"static_check,omitempty"`
 }
 
@@ -89,7 +90,7 @@ func genGraphSpec(r *Rand) GraphSpec {
 		s.Churn = r.Range(40, 600)
 	}
 	if s.Kind == "grammar" {
-		s.G = genGrammar(r, &genOpts{MaxNodes: 12, Alphabet: "ab", Trims: true, MemoChance: 35, Names: true, Rich: r.Chance(1, 3)})
+		s.G = genGrammar(r, &genOpts{MaxNodes: 12, Alphabet: "ab", Trims: true, MemoChance: 35, Names: true, Rich: r.Chance(1, 3), User: true})
 		s.Interp = r.Bool()
 		n := len(s.G.Nodes)
 		s.Order = make([]int, n)
@@ -129,15 +130,21 @@ func (*c14Prop) Gen(r *Rand, pl *Plan) Case {
 		if spec.Kind == "grammar" && !spec.Interp {
 			t.Eval = false
 		}
+		if r.Chance(1, 12) {
+			t.Huge = hugeSizes[r.Intn(len(hugeSizes))]
+		}
 		for k := r.Intn(3); k > 0 && r.Chance(1, 3); k-- {
 			t.Prefix = append(t.Prefix, strings.Repeat("x", r.Intn(9)))
 		}
 		c.Tasks = append(c.Tasks, t)
 	}
 	c.Sched = genSched(r, nt, 3000)
-	if r.Chance(1, 4) {
+	if r.Chance(1, 3) {
 		c.Sched.AbortTask = int64(r.Range(1, nt))
 		c.Sched.AbortAt = int64(r.Range(1, 6))
+		if r.Chance(1, 2) {
+			c.Sched.AbortAt = int64(r.Range(1, 60))
+		}
 	}
 	return c
 }
@@ -182,6 +189,9 @@ func (t *c14Task) observe(p parsley.Parser) (obs string) {
 		}
 	}()
 	fs := parsley.NewFileSet()
+	if t.Huge > 0 {
+		fs.AddFile(&hugeFile{n: t.Huge})
+	}
 	for i, pre := range t.Prefix {
 		fs.AddFile(text.NewFile(fmt.Sprintf("pre%d", i), []byte(pre)))
 	}
@@ -440,6 +450,11 @@ func (*c14Prop) Shrink(cc Case) []Case {
 		if len(t.Prefix) > 0 {
 			k := clone()
 			k.Tasks[i].Prefix = nil
+			out = append(out, k)
+		}
+		if t.Huge > 0 {
+			k := clone()
+			k.Tasks[i].Huge = 0
 			out = append(out, k)
 		}
 		if t.StaticCheck {
